@@ -14,6 +14,8 @@ validated here; items are `tag:kind:payload` with kind `b`/`o` = borrowed/owned
 bytes, `m` = the message in an earlier slot, `v` = a `MessageView` of that
 slot's encoding (a received message re-used as a value), `f` = a value whose
 `rough_tlv_len` reports the given number and which is never encoded);
+`I msgrun <ctor> <vt> <L> <defect>` is `msg` on a generated list (`runItems`: `L` pairs with empty
+values and ascending tags, one defect at a chosen position; the single-defect sweeps);
 `I enc <slot> <sink>` encodes the slot's message and views the result; it answers
 `calls <b|c><len>,…` (the `ZeroCopySink` calls `encode` makes, in order: method and
 length), for sink `hcobs` also `wire <hex>` (what the HCOBS `Encoder` sink holds after
@@ -157,7 +159,63 @@ def callsStr (cs : List Piece) : String :=
 
 def prodParams : Woodpile.Hcobs.Params := ⟨Woodpile.Gen.maxInit, Woodpile.Gen.maxSub, Woodpile.Gen.radix⟩
 
+/-- The defect of a `msgrun` op (see `runItems`). -/
+inductive Defect where
+  | none
+  | descent (i : Nat)
+  | equal (i : Nat)
+  | fake (i : Nat) (len : Nat)
+
+def parseDefect (s : String) : Option Defect :=
+  if s = "-" then some .none
+  else
+    let rest := (s.drop 1).toString
+    if s.startsWith "d" then rest.toNat?.map .descent
+    else if s.startsWith "e" then rest.toNat?.map .equal
+    else if s.startsWith "f" then
+      match rest.splitOn ":" with
+      | [i, len] =>
+        match i.toNat?, len.toNat? with
+        | some i, some len => if len ≥ 18446744073709551616 then none else some (.fake i len)
+        | _, _ => none
+      | _ => none
+    else none
+
+/-- The list of `msgrun <ctor> <vt> <L> <defect>` (same as the harness' `msgrun_items`): `L` pairs with
+empty values handed over as `vt` hands over a borrowed value, tags `10 + 2j`, and one defect:
+the tags of pairs `i`, `i+1` swapped / pair `i+1` carrying the tag of pair `i` / pair `i` a
+value that only reports a length.  `none` = malformed. -/
+def runItems (vt : String) (l : Nat) (d : Defect) : Option (List (UInt32 × ItemSpec)) :=
+  let tag (j : Nat) : Nat :=
+    match d with
+    | .descent i => if j = i then 10 + 2 * (i + 1) else if j = i + 1 then 10 + 2 * i else 10 + 2 * j
+    | .equal i => if j = i + 1 then 10 + 2 * i else 10 + 2 * j
+    | _ => 10 + 2 * j
+  let item (j : Nat) : ItemSpec :=
+    match d with
+    | .fake i len => if j = i then .fake len else .bytes (methodOf vt "b") []
+    | _ => .bytes (methodOf vt "b") []
+  let ok : Bool :=
+    kindAllowed vt "b" && l ≤ 100000 &&
+    (match d with
+     | .none => true
+     | .descent i => i + 1 < l
+     | .equal i => i + 1 < l
+     | .fake i _ => i < l && vt == "h")
+  if ok then some ((List.range l).map (fun j => (UInt32.ofNat (tag j), item j))) else none
+
 def step (s : TlvSt) : List String → TlvSt × List String
+  | ["msgrun", ctor, vt, l, defect] =>
+    match parseCtor ctor, l.toNat?, parseDefect defect with
+    | some c, some l, some d =>
+      match runItems vt l d with
+      | none => (s, ["bad-op"])
+      | some its =>
+        match s.msg c its with
+        | none => (s, ["bad-op"])
+        | some (s', .ok w) => (s', ["ok " ++ toString w.tlvLen])
+        | some (s', .error e) => (s', ["err " ++ encErrStr e])
+    | _, _, _ => (s, ["bad-op"])
   | ["msg", ctor, vt, items] =>
     match parseCtor ctor, parseItems vt items with
     | some c, some its =>
